@@ -24,6 +24,7 @@ Value-level equality over all operand values follows from these plus Python's ow
 semantics and is not decided.
 """
 import ast
+import copy
 
 from .. import Undecided
 from ..expr import canon, call_name, unparse
@@ -441,10 +442,52 @@ def check_compile_expr(ctx, nts):
         raise Undecided('anchor deferred.compile_expr not found')
     ctx.unit('functions')
     R = fi.node.args.args[0].arg
-    w = repo.walker(max_paths=ctx.max_paths)
-    paths = w.paths(fi.node)
-    ctx.unit('paths', len(paths))
     kinds = set()
+
+    # one walk per class of the root expression: the tests on its class are decided by the case,
+    # and a namedtuple expression is the tuple of its fields (so it can be unpacked, sliced,
+    # iterated, read by field name -- however the branch is written)
+    def case_paths(K):
+        fields = nts.get(K)
+        node = fi.node
+        bind = None
+        if fields is not None:
+            tup = ast.Tuple(elts=[ast.Subscript(value=ast.Name(id=R, ctx=ast.Load()), slice=ast.Constant(value=i), ctx=ast.Load()) for i in range(len(fields))], ctx=ast.Load())
+            bind = {R: tup}
+
+            class _F(ast.NodeTransformer):
+                def visit_Attribute(self, n):
+                    self.generic_visit(n)
+                    if isinstance(n.value, ast.Name) and n.value.id == R and n.attr in fields and isinstance(n.ctx, ast.Load):
+                        return ast.copy_location(ast.Subscript(value=n.value, slice=ast.Constant(value=fields.index(n.attr)), ctx=ast.Load()), n)
+                    return n
+            node = _F().visit(copy.deepcopy(fi.node))
+            ast.fix_missing_locations(node)
+        me = canon(bind[R]) if bind else R
+
+        def fold(t):
+            if isinstance(t, ast.UnaryOp) and isinstance(t.op, ast.Not):
+                r_ = fold(t.operand)
+                return None if r_ is None else not r_
+            if isinstance(t, ast.Call) and isinstance(t.func, ast.Name) and t.func.id == 'isinstance' and len(t.args) == 2 and canon(t.args[0]) in (me, R):
+                cl = t.args[1]
+                names = [canon(x) for x in (cl.elts if isinstance(cl, ast.Tuple) else [cl])]
+                known = set(nts) | {'Field'}
+                if K in names:
+                    return True
+                if all(x in known for x in names):
+                    return False
+            return None
+        return repo.walker(max_paths=ctx.max_paths, fold=fold).paths(node, bind=bind)
+
+    def arity(node):
+        """the arity argument of an emission: a number, or the text of what it counts"""
+        if isinstance(node, ast.Constant):
+            return str(node.value)
+        if isinstance(node, ast.Call) and isinstance(node.func, ast.Name) and node.func.id == 'len' and len(node.args) == 1 \
+                and isinstance(node.args[0], (ast.Tuple, ast.List)) and not any(isinstance(x, ast.Starred) for x in node.args[0].elts):
+            return str(len(node.args[0].elts))
+        return canon(node)
 
     def calls_of(p):
         out = []
@@ -453,79 +496,86 @@ def check_compile_expr(ctx, nts):
                 out.append(('compile', canon(e.call.args[0]), e))
             elif e.kind == 'call' and isinstance(e.call.func, ast.Attribute) and e.call.func.attr == 'append' and canon(e.call.func.value).startswith(('ops', 'Operations()', '(ops')) or \
                     (e.kind == 'call' and isinstance(e.call.func, ast.Attribute) and e.call.func.attr == 'append' and len(e.call.args) >= 3):
-                out.append(('emit', (canon(e.call.args[0]), e.call.args[1]), e))
+                out.append(('emit', (arity(e.call.args[0]), e.call.args[1]), e))
         return out
 
-    for p in paths:
-        if p.raises():
-            continue
-        gt = set(p.guard_texts())
-        cs = calls_of(p)
-        top = [c for c in cs if c[2] in p.effects]
-        if ('isinstance(%s, BinaryExpr)' % R) in gt:
-            kinds.add('binary')
-            seq = [(k, v if k == 'compile' else v[0]) for k, v, _ in top]
-            want = [('compile', '%s[0]' % R), ('compile', '%s[1]' % R), ('emit', '2')]
-            opx = [v[1] for k, v, _ in top if k == 'emit']
-            if seq == want and opx and canon(opx[0]) == '%s[2]' % R:
-                ctx.holds(rule, fi, 'BinaryExpr: compile(left); compile(right); emit(2, op)', 'postfix, operands in namedtuple order (left, right, op)', fi.node.lineno, clause='c')
-            else:
-                ctx.violation(rule, fi, 'BinaryExpr: %s' % seq, 'expected compile(left), compile(right), emit(2, op)', fi.node.lineno, clause='c')
-        elif ('isinstance(%s, UnaryExpr)' % R) in gt:
-            kinds.add('unary')
-            seq = [(k, v if k == 'compile' else v[0]) for k, v, _ in top]
-            opx = [v[1] for k, v, _ in top if k == 'emit']
-            if seq == [('compile', '%s[0]' % R), ('emit', '1')] and canon(opx[0]) == '%s[1]' % R:
-                ctx.holds(rule, fi, 'UnaryExpr: compile(arg); emit(1, op)', 'postfix', fi.node.lineno, clause='c')
-            else:
-                ctx.violation(rule, fi, 'UnaryExpr: %s' % seq, 'expected compile(arg), emit(1, op)', fi.node.lineno, clause='c')
-        elif ('isinstance(%s, NaryExpr)' % R) in gt:
-            which = 'list' if ('%s[1]' % R) in gt else 'mapping'
-            kinds.add('nary-' + which)
-            seq = [(k, v if k == 'compile' else v[0]) for k, v, _ in top]
-            loops = [e for e in p.effects if e.kind == 'loop']
-            ok = len(seq) == 3 and seq[0] == ('compile', '%s[0]' % R) and seq[1][0] == 'emit' and seq[2] == ('emit', '2') and len(loops) == 1
-            emits = [(v, e) for k, v, e in top if k == 'emit']
-            if ok:
-                lp = loops[0]
-                it = canon(lp.sub['iter'])
-                inner = [c for bp in lp.sub['body'] for c in bp.effects if c.kind == 'call' and call_name(c.call) == 'compile_expr']
-                item = '<item of %d>' % lp.sub['phi']
-                if which == 'list':
-                    ok = it == '%s[1]' % R and len(inner) == 1 and canon(inner[0].call.args[0]) == item and emits[0][0][0] == 'len(%s[1])' % R
-                    coll = emits[0][0][1]
-                    ok = ok and isinstance(coll, ast.Lambda) and coll.args.vararg is not None and canon(coll.body) == coll.args.vararg.arg and not coll.args.args
+    npaths = 0
+    for K in ['BinaryExpr', 'UnaryExpr', 'NaryExpr', 'Field', '<literal>']:
+        if K in ('BinaryExpr', 'UnaryExpr', 'NaryExpr') and K not in nts:
+            raise Undecided('namedtuple %s not found in deferred.py' % K)
+        paths = case_paths(K)
+        npaths += len(paths)
+        for p in paths:
+            if p.raises():
+                continue
+            gt = set(p.guard_texts())
+            cs = calls_of(p)
+            top = [c for c in cs if c[2] in p.effects]
+            if K == 'BinaryExpr':
+                kinds.add('binary')
+                seq = [(k, v if k == 'compile' else v[0]) for k, v, _ in top]
+                want = [('compile', '%s[0]' % R), ('compile', '%s[1]' % R), ('emit', '2')]
+                opx = [v[1] for k, v, _ in top if k == 'emit']
+                if seq == want and opx and canon(opx[0]) == '%s[2]' % R and len(cs) == len(top):
+                    ctx.holds(rule, fi, 'BinaryExpr: compile(left); compile(right); emit(2, op)', 'postfix, operands in namedtuple order (left, right, op)', fi.node.lineno, clause='c')
                 else:
-                    ok = it == 'zip(*%s[2].items())[1]' % R and len(inner) == 1 and canon(inner[0].call.args[0]) == item and emits[0][0][0] in ('len(%s[2])' % R, 'len(zip(*%s[2].items())[1])' % R)
-                    coll = emits[0][0][1]
-                    ok = ok and isinstance(coll, ast.Lambda) and coll.args.vararg is not None and canon(coll.body) == 'dict(zip(zip(*%s[2].items())[0], %s))' % (R, coll.args.vararg.arg)
-                # order: compile(left) < loop < collector < op
-                order = [p.effects.index(top[0][2]), p.effects.index(lp), p.effects.index(emits[0][1]), p.effects.index(emits[1][1])]
-                ok = ok and order == sorted(order) and canon(emits[1][0][1]) == '%s[3]' % R
-            if ok:
-                ctx.holds(rule, fi, 'NaryExpr (%s): compile(left); compile(each value in order); emit(n, collector); emit(2, op)' % which,
-                          'postfix; collector %s' % ('lambda *v: v' if which == 'list' else 'dict(zip(keys, v)) with keys / values of one zip(*items())'), fi.node.lineno, clause='c')
-            else:
-                ctx.violation(rule, fi, 'NaryExpr (%s): %s' % (which, seq), 'expected compile(left), compile(values in order), emit(n, order-preserving collector), emit(2, op)', fi.node.lineno, clause='c')
-        elif ('isinstance(%s, Field)' % R) in gt:
-            emits = [(v, e) for k, v, e in top if k == 'emit']
-            if ("hasattr(%s, 'field_name')" % R) in gt:
-                kinds.add('field')
-                lam = emits[0][0][1] if emits else None
-                ok = len(emits) == 1 and emits[0][0][0] == '0' and isinstance(lam, ast.Lambda) and lam.args.args and canon(lam.body, {lam.args.args[0].arg: 'PKT'}) == 'getattr(PKT, %s.field_name)' % R
+                    ctx.violation(rule, fi, 'BinaryExpr: %s' % seq, 'expected compile(left), compile(right), emit(2, op)', fi.node.lineno, clause='c')
+            elif K == 'UnaryExpr':
+                kinds.add('unary')
+                seq = [(k, v if k == 'compile' else v[0]) for k, v, _ in top]
+                opx = [v[1] for k, v, _ in top if k == 'emit']
+                if seq == [('compile', '%s[0]' % R), ('emit', '1')] and canon(opx[0]) == '%s[1]' % R and len(cs) == len(top):
+                    ctx.holds(rule, fi, 'UnaryExpr: compile(arg); emit(1, op)', 'postfix', fi.node.lineno, clause='c')
+                else:
+                    ctx.violation(rule, fi, 'UnaryExpr: %s' % seq, 'expected compile(arg), emit(1, op)', fi.node.lineno, clause='c')
+            elif K == 'NaryExpr':
+                which = 'list' if ('%s[1]' % R) in gt else 'mapping'
+                kinds.add('nary-' + which)
+                seq = [(k, v if k == 'compile' else v[0]) for k, v, _ in top]
+                loops = [e for e in p.effects if e.kind == 'loop']
+                ok = len(seq) == 3 and seq[0] == ('compile', '%s[0]' % R) and seq[1][0] == 'emit' and seq[2] == ('emit', '2') and len(loops) == 1
+                emits = [(v, e) for k, v, e in top if k == 'emit']
                 if ok:
-                    ctx.holds(rule, fi, 'Field leaf: emit(0, lambda pkt, ...: getattr(pkt, field_name))', 'reads the already-parsed value', fi.node.lineno, clause='c')
+                    lp = loops[0]
+                    it = canon(lp.sub['iter'])
+                    inner = [c for bp in lp.sub['body'] for c in bp.effects if c.kind == 'call' and call_name(c.call) == 'compile_expr']
+                    item = '<item of %d>' % lp.sub['phi']
+                    if which == 'list':
+                        ok = it == '%s[1]' % R and len(inner) == 1 and canon(inner[0].call.args[0]) == item and emits[0][0][0] == 'len(%s[1])' % R
+                        coll = emits[0][0][1]
+                        ok = ok and isinstance(coll, ast.Lambda) and coll.args.vararg is not None and canon(coll.body) == coll.args.vararg.arg and not coll.args.args
+                    else:
+                        ok = it == 'zip(*%s[2].items())[1]' % R and len(inner) == 1 and canon(inner[0].call.args[0]) == item and emits[0][0][0] in ('len(%s[2])' % R, 'len(zip(*%s[2].items())[1])' % R)
+                        coll = emits[0][0][1]
+                        ok = ok and isinstance(coll, ast.Lambda) and coll.args.vararg is not None and canon(coll.body) == 'dict(zip(zip(*%s[2].items())[0], %s))' % (R, coll.args.vararg.arg)
+                    # order: compile(left) < loop < collector < op
+                    order = [p.effects.index(top[0][2]), p.effects.index(lp), p.effects.index(emits[0][1]), p.effects.index(emits[1][1])]
+                    ok = ok and order == sorted(order) and canon(emits[1][0][1]) == '%s[3]' % R
+                if ok:
+                    ctx.holds(rule, fi, 'NaryExpr (%s): compile(left); compile(each value in order); emit(n, collector); emit(2, op)' % which,
+                              'postfix; collector %s' % ('lambda *v: v' if which == 'list' else 'dict(zip(keys, v)) with keys / values of one zip(*items())'), fi.node.lineno, clause='c')
                 else:
-                    ctx.violation(rule, fi, 'Field leaf: %s' % [(v[0], canon(v[1])) for v, _ in emits], 'a field operand must be a 0-ary lookup of that field on the packet', fi.node.lineno, clause='c')
-        else:
-            emits = [(v, e) for k, v, e in top if k == 'emit']
-            if emits and not [c for c in top if c[0] == 'compile']:
-                kinds.add('literal')
-                lam = emits[0][0][1]
-                if emits[0][0][0] == '0' and isinstance(lam, ast.Lambda) and canon(lam.body) == R:
-                    ctx.holds(rule, fi, 'literal leaf: emit(0, lambda ...: value)', 'constants evaluate to themselves', fi.node.lineno, clause='c')
-                else:
-                    ctx.violation(rule, fi, 'literal leaf: %s' % canon(lam), 'a constant operand must evaluate to itself', fi.node.lineno, clause='c')
+                    ctx.violation(rule, fi, 'NaryExpr (%s): %s' % (which, seq), 'expected compile(left), compile(values in order), emit(n, order-preserving collector), emit(2, op)', fi.node.lineno, clause='c')
+            elif K == 'Field':
+                emits = [(v, e) for k, v, e in top if k == 'emit']
+                if ("hasattr(%s, 'field_name')" % R) in gt:
+                    kinds.add('field')
+                    lam = emits[0][0][1] if emits else None
+                    ok = len(emits) == 1 and emits[0][0][0] == '0' and isinstance(lam, ast.Lambda) and lam.args.args and canon(lam.body, {lam.args.args[0].arg: 'PKT'}) == 'getattr(PKT, %s.field_name)' % R
+                    if ok:
+                        ctx.holds(rule, fi, 'Field leaf: emit(0, lambda pkt, ...: getattr(pkt, field_name))', 'reads the already-parsed value', fi.node.lineno, clause='c')
+                    else:
+                        ctx.violation(rule, fi, 'Field leaf: %s' % [(v[0], canon(v[1])) for v, _ in emits], 'a field operand must be a 0-ary lookup of that field on the packet', fi.node.lineno, clause='c')
+            else:
+                emits = [(v, e) for k, v, e in top if k == 'emit']
+                if emits and not [c for c in top if c[0] == 'compile']:
+                    kinds.add('literal')
+                    lam = emits[0][0][1]
+                    if emits[0][0][0] == '0' and isinstance(lam, ast.Lambda) and canon(lam.body) == R:
+                        ctx.holds(rule, fi, 'literal leaf: emit(0, lambda ...: value)', 'constants evaluate to themselves', fi.node.lineno, clause='c')
+                    else:
+                        ctx.violation(rule, fi, 'literal leaf: %s' % canon(lam), 'a constant operand must evaluate to itself', fi.node.lineno, clause='c')
+    ctx.unit('paths', npaths)
     need = {'binary', 'unary', 'nary-list', 'nary-mapping', 'field', 'literal'}
     if not need <= kinds:
         ctx.violation(rule, fi, 'compile_expr branches %s' % sorted(kinds), 'missing %s' % sorted(need - kinds), fi.node.lineno, clause='c')
@@ -535,11 +585,41 @@ def check_compile_expr(ctx, nts):
     if ap is None or al is None:
         raise Undecided('anchor Operations.append / as_list not found')
     pa = [a.arg for a in ap.node.args.args][1:]
-    src = unparse(ap.node)
-    if 'self.ops.append((%s, %s, %s, %s))' % tuple(pa[:4]) in src:
+    nts_all = namedtuple_fields(repo.modules['deferred']['tree'])
+    verdicts = []
+    for p in repo.walker().paths(ap.node, cls=ops):
+        if p.raises():
+            continue
+        adds = [e for e in p.effects if e.kind == 'call' and isinstance(e.call.func, ast.Attribute) and canon(e.call.func.value) == 'self.ops']
+        if len(adds) != 1:
+            verdicts.append((None, 'self.ops is touched %d times on a path' % len(adds)))
+            continue
+        c = adds[0].call
+        if c.func.attr != 'append' or len(c.args) != 1 or c.keywords:
+            verdicts.append((False, 'self.ops.%s(...)' % c.func.attr))
+            continue
+        entry = c.args[0]
+        first2 = None
+        if isinstance(entry, ast.Tuple):
+            first2 = [canon(x) for x in entry.elts[:2]]
+        elif isinstance(entry, ast.Call) and isinstance(entry.func, ast.Name) and entry.func.id in nts_all and not any(isinstance(x, ast.Starred) for x in entry.args):
+            fields = nts_all[entry.func.id]
+            given = dict(zip(fields, entry.args))
+            given.update({k.arg: k.value for k in entry.keywords if k.arg})
+            if len(fields) >= 2 and fields[0] in given and fields[1] in given:
+                first2 = [canon(given[fields[0]]), canon(given[fields[1]])]
+        if first2 is None:
+            verdicts.append((None, 'entry %s' % canon(entry)[:80]))
+        elif first2 == pa[:2]:
+            verdicts.append((True, ''))
+        else:
+            verdicts.append((False, 'entry begins with (%s)' % ', '.join(first2)))
+    if verdicts and all(v is True for v, _ in verdicts):
         ctx.holds(rule, ap, 'Operations.append stores (arity, operation, level, name) at the end', 'emission order = evaluation order', ap.node.lineno, clause='c')
+    elif any(v is False for v, _ in verdicts):
+        ctx.violation(rule, ap, 'Operations.append: %s' % [w_ for v, w_ in verdicts if v is False][0], 'operations are not appended as (arity, operation, ...) tuples in emission order', ap.node.lineno, clause='c')
     else:
-        ctx.violation(rule, ap, 'Operations.append', 'operations are not appended as (arity, operation, ...) tuples in emission order', ap.node.lineno, clause='c')
+        ctx.undecided(rule, ap, 'Operations.append', 'cannot see what is appended to the program (%s)' % '; '.join(w_ for _, w_ in verdicts)[:120], ap.node.lineno, clause='c')
     comp = [n for n in ast.walk(al.node) if isinstance(n, ast.ListComp)]
     if comp and canon(comp[0]) == '[(_v0, _v1,) for (_v0, _v1, _v2, _v3,) in self.ops]' or (comp and canon(comp[0].generators[0].iter) == 'self.ops' and not comp[0].generators[0].ifs
                                                                                               and isinstance(comp[0].elt, ast.Tuple) and len(comp[0].elt.elts) == 2):
@@ -584,10 +664,22 @@ def check_exec(ctx):
         N, OP = item + '[0]', item + '[1]'
         if canon(lp.sub['iter']) != 'ops':
             ctx.violation(rule, fi, 'for ... in %s' % canon(lp.sub['iter']), 'the program must be run in emission order', lp.lineno, clause='d')
-        stack = 'list(%s)' % A
+        # the evaluation stack: the list the results are pushed on; which end is the top follows
+        # from how it is made of the initial arguments (given top first)
+        stacks = {'list(%s)' % A: 'front', 'list(reversed(%s))' % A: 'back', 'list(%s[::-1])' % A: 'back', 'list(%s)[::-1]' % A: 'back', '%s[::-1]' % A: 'back'}
+        stack = None
+        for bp in lp.sub['body']:
+            for e in bp.effects:
+                if e.kind == 'call' and isinstance(e.call.func, ast.Attribute) and e.call.func.attr in ('insert', 'append') and canon(e.call.func.value) in stacks \
+                        and any(isinstance(x, ast.Call) and canon(x.func) == OP for a_ in e.call.args for x in ast.walk(a_)):
+                    stack = canon(e.call.func.value)
+        if stack is None:
+            stack = 'list(%s)' % A
+        top = stacks[stack]
         push = pop = order = leaf = dele = None
         for bp in lp.sub['body']:
             gt = set(bp.guard_texts())
+            is_leaf = ('(%s == 0)' % N) in gt or ('not %s' % N) in gt or ('(%s <= 0)' % N) in gt or ('(%s < 1)' % N) in gt
             for e in bp.effects:
                 if e.kind == 'call' and isinstance(e.call.func, ast.Attribute) and canon(e.call.func.value) == stack:
                     if e.call.func.attr == 'insert' and canon(e.call.args[0]) == '0':
@@ -599,7 +691,7 @@ def check_exec(ctx):
                 if e.kind == 'del':
                     dele = canon(e.obj)
                 if e.kind == 'call' and canon(e.call.func) == OP:
-                    if ('(%s == 0)' % N) in gt:
+                    if is_leaf:
                         leaf = canon(e.call)
                     else:
                         a = e.call.args[0] if e.call.args else None
@@ -608,14 +700,19 @@ def check_exec(ctx):
                             if isinstance(v, ast.Call) and call_name(v) == 'reversed':
                                 order = 'reversed'
                                 v = v.args[0]
+                            elif isinstance(v, ast.Subscript) and canon(v.slice) == '::-1':
+                                order = 'reversed'
+                                v = v.value
                             else:
                                 order = 'plain'
                             pop = canon(v)
-        st = 'push=%s, operands=%s of %s, delete %s' % (push, order, pop, dele)
+        st = 'stack %s, push=%s, operands=%s of %s, delete %s' % (stack, push, order, pop, dele)
         front = (push == 'front' and pop == '%s[:%s]' % (stack, N) and order == 'reversed' and dele == pop)
         back = (push == 'back' and pop in ('%s[(-1*%s):]' % (stack, N), '%s[-%s:]' % (stack, N)) and order == 'plain' and dele == pop)
-        if front or back:
+        if (front and top == 'front') or (back and top == 'back'):
             ctx.holds(rule, fi, st, 'operands reach the operator in the order they were compiled (left, right)', lp.lineno, clause='d')
+        elif front or back:
+            ctx.undecided(rule, fi, st, 'the operators get their operands in the compiled order, but the initial arguments are stacked with the other end up', lp.lineno, clause='d')
         else:
             ctx.violation(rule, fi, st, 'push side, pop slice and operand order are not mutually consistent: binary operators receive their operands swapped or stale values', lp.lineno, clause='d')
         if leaf == '%s(pkt, *vargs, **kargs)' % OP:
@@ -623,7 +720,9 @@ def check_exec(ctx):
         else:
             ctx.violation(rule, fi, 'leaf: %s' % leaf, 'a 0-ary operation must be called with (pkt, *vargs, **kargs)', lp.lineno, clause='d')
         r = p.ret()
-        if r is not None and canon(r) == '%s[0]' % stack and any('len(%s)' % stack in g for g in p.guard_texts()):
+        # with exactly one entry left, either end (read or popped) is that entry
+        single = {'%s[0]' % stack, '%s[-1]' % stack, '%s.pop()' % stack, '%s.pop(0)' % stack, '%s.pop(-1)' % stack}
+        if r is not None and canon(r) in single and any('len(%s)' % stack in g for g in p.guard_texts()):
             ctx.holds(rule, fi, 'assert len(stack) == 1; return stack[0]', 'exactly one value remains', fi.node.lineno, clause='d')
         elif not p.raises():
             ctx.violation(rule, fi, 'returns %s' % (canon(r) if r is not None else None), 'the result must be the single remaining stack entry', fi.node.lineno, clause='d')
@@ -635,8 +734,8 @@ def check_exec(ctx):
             if e.kind == 'call' and isinstance(e.call.func, ast.Attribute) and e.call.func.attr in ('insert', 'append') and e.call.args \
                     and any(canon(x.func) == '<item of %d>[1]' % l_.sub['phi'] for l_ in p.effects if l_.kind == 'loop' for x in ast.walk(e.call) if isinstance(x, ast.Call)):
                 recvs.add(canon(e.call.func.value))
-    if recvs == {'list(%s)' % A}:
-        ctx.holds(rule, fi, 'stack = list(%s)' % A, 'a fresh stack per evaluation', fi.node.lineno, clause='g')
+    if len(recvs) == 1 and list(recvs)[0] in ('list(%s)' % A, 'list(reversed(%s))' % A, 'list(%s[::-1])' % A, 'list(%s)[::-1]' % A, '%s[::-1]' % A):
+        ctx.holds(rule, fi, 'stack = %s' % list(recvs)[0], 'a fresh stack per evaluation', fi.node.lineno, clause='g')
     elif A in recvs:
         ctx.violation(rule, fi, 'results are pushed on %s' % A, 'the shared initial stack is not copied: evaluations interfere with each other', fi.node.lineno, clause='g')
     else:
